@@ -503,6 +503,71 @@ PROPS["C20"] = dict(
 )
 
 # properties not claimed yet (kept current as checks are added)
+PROPS["C15"] = dict(
+    lean_targets=["SJ.Props.C15", "SJ.Audit.C15"],
+    configs=dict(quick=["d", "fr"], thorough=["d", "fr", "po", "ap"]),
+    gen_keys=["tovalue."],
+    rule="serializer programs replayed against serde_json::to_value (tov) and the triple to_value / to_string / "
+         "from_str(to_string(f32-widened data)) (tovagree): a fixed corpus (every serde::Serializer entry point; every integer "
+         "width at 0, +-1, MIN/MAX and around i64::MIN, i64::MAX, u64::MAX, 2^64, i128/u128 extremes, alone, in sequences and as "
+         "map values and keys; 33 f32 and 34 f64 specials incl. subnormals, extremes, -0, 1e22/1e23, NaN/inf as values and keys; "
+         "every key kind valid (str, char, enum, collect_str, bool, every integer width, finite f32/f64, newtype chains), Option "
+         "keys (Some of each kind, nested, behind newtype structs) and invalid (compound, unit, None, bytes, variants with "
+         "payload, non-finite floats, Some around invalid keys), each in three contexts; duplicate and colliding keys across key "
+         "kinds, insertion vs sorted order; failure-order cases mixing two key error classes and 128-bit overflow; nested "
+         "variants), then random programs: 4/6 from the C03 generator gen_prog (all constructors, depth 0-4, hints None/exact, "
+         "adversarial strings, float specials), 1/6 maps with colliding/repeated keys over several key kinds, 1/6 numeric programs "
+         "(boundary integers, f32/f64 of every class in seq/struct/map/variant/option positions). Of the random programs with an "
+         "Option key only 1 in 16 (thorough: 1 in 40) is run as generated (known finding C15-some-key; the driver prints at most 200 failures), the "
+         "others with the Some wrappers removed from keys. A case is non-trivial when the program builds an object (map, struct, "
+         "variant with payload), has bytes, a float or a 128-bit integer; distinct = distinct case lines.",
+    trusted_base=[KERNEL, TIE,
+                  "itoa and ryu are parameters (structure Ext) with the recorded assumptions ExtOK (itoa prints plain decimal digits, ryu "
+                  "prints finite floats as RFC 8259 numbers); the ryu text of every generated float (and of every widened f32) is "
+                  "shipped with the case and checked to be a number",
+                  "the text-side facts come from C03 (c03_compact, c03_error_iff) and its trusted base; Map<String, Value> = BTreeMap / "
+                  "IndexMap by documented insert semantics (Model.Machine.btInsert / ixInsert, proved equal to the declarative map "
+                  "specification in SJ/Proofs/MkObj.lean); the parser's number classification is Model.Num (validated by the C01/C02 "
+                  "correspondence) with the integer lemmas of SJ/Proofs/NumInt.lean",
+                  "`f32 as f64` is modelled on bit patterns (Model.ToValue.f32to64) and validated against the crate on every generated f32; "
+                  "serde's default SerializeMap::serialize_entry, u64/i64::try_from, String::push, to_string: by documented semantics"],
+    assumptions=["ExtOK: ext.itoa n = Spec.Number.decimal n; finite floats print as numbers",
+                 "programs are within the Rust types (inScope: every integer fits its entry point's type) and do not use the private "
+                 "struct names $serde_json::private::Number / RawValue (SerializeMap::Number / RawValue, NumberValueEmitter, "
+                 "RawValueEmitter are out of scope; `numberLit` is excluded)",
+                 "float comparison (floatsRT): every finite f64 serialised as a value is read back from its printed text as the same "
+                 "double — C07 + ryu correctness under float_roundtrip, short literals (<= 15 digits, |exp| <= 22) by default (C08), "
+                 "vacuous under arbitrary_precision; the correspondence compares exactly under fr/ap/short and with floats erased otherwise",
+                 "ParserComplete (only for c15_agree_of_parser): the &str parser returns canon(t) on every derivable text within its "
+                 "side conditions — C01 completeness + C02, proved on the parser branches"],
+    partial=["c15_keys_partial: agreement of the two key serializers is proved for keys that do not reach serialize_some; for Some(_) "
+             "keys the pinned sources differ (c15_some_key_disagrees, c15_key_dispatch; known finding C15-some-key) and all agreement "
+             "theorems carry the hypothesis hasSomeKey p = false",
+             "c15_agree_partial: to_value p = canon (the syntax tree of to_string (widenF32 p)); 'equals the Value obtained by parsing' "
+             "needs the named hypothesis ParserComplete (c15_agree_of_parser) and the parser's side conditions (nesting <= 127)"],
+    technique="Lean 4 theorems over all serializer programs: the transcription of value::Serializer / SerializeVec / SerializeMap / "
+              "SerializeTupleVariant / SerializeStructVariant / value::ser::MapKeySerializer / Number::from_* is related by one mutual "
+              "induction to the data-model image that the text serializer is proved (C03) to print; the dispatch tables of both "
+              "MapKeySerializers, the bool key literals and the 128-bit branch shape are regenerated from src/value/ser.rs and "
+              "src/ser.rs each run; differential run of to_value against the model, and of the property's own statement "
+              "(to_value vs to_string vs from_str) on the crate",
+    level_text="Machine-checked Lean 4 theorems for every serializer program within the Rust types and every configuration "
+               "(preserve_order, float_roundtrip, arbitrary_precision): to_value succeeds exactly when to_string does, except for "
+               "128-bit integers outside [i64::MIN, u64::MAX] without arbitrary_precision, which fail with NumberOutOfRange "
+               "(c15_success_iff, c15_128_error); both fail with the same error class (c15_error_iff); on success the result is the "
+               "Value denoted — under the parser's own classification rules — by the same data-model image that to_string is proved "
+               "to print, with f32 widened (c15_value_is_image, c15_valueOfImage_is_canon, c15_agree_partial). The two key serializers "
+               "agree on every key that does not reach serialize_some (c15_keys_partial); for Some(_) keys the pinned tree deviates — "
+               "kernel-checked counter-example c15_some_key_disagrees, reproduced on the crate (known finding C15-some-key) — and the "
+               "agreement theorems exclude such programs. The key-serializer dispatch tables are regenerated from the source each "
+               "run and tied to the models (c15_key_dispatch); the model is compared with serde_json::to_value on generated "
+               "programs and the property's statement is evaluated on the crate's own outputs.",
+    level_note="Trusted: Lean kernel + propext/Classical.choice/Quot.sound; extract.py; harness/driver comparison; itoa/ryu as assumed "
+               "parameters; C03's model of the text serializer; BTreeMap/IndexMap insert semantics; Model.Num as the parser's number "
+               "semantics. Partial: Some(_) map keys (genuine deviation of the pinned tree, open finding); equality with the *parsed* "
+               "Value is conditional on parser completeness (C01/C02); f64 equality under the stated float proviso.",
+)
+
 NOT_APPLICABLE = [
     dict(property_id=f"C{i:02d}", reason="check under construction in this build phase; not yet claimed (see DESIGN.md §11 build order)")
     for i in range(1, 21) if f"C{i:02d}" not in PROPS
